@@ -76,9 +76,9 @@ def kernel_gradients(ctx, rng, q):
     for rep in range(reps):
         for fam, nu2 in (("rbf", None), ("matern", 1), ("matern", 3), ("matern", 5)):
             for batch in (None, 2):
-                d = rng.randint(1, 4)
-                n1, n2 = rng.randint(1, 5), rng.randint(1, 5)
                 B = batch or 1
+                d = rng.choice([x for x in (1, 2, 3, 4) if x != B])
+                n1, n2 = rng.sample([x for x in (1, 2, 3, 4, 5, 6) if x not in (B, d)], 2)   # B, d, n1, n2 pairwise different
                 x1 = [K5.rand_x(rng, n1, d) for _ in range(B)]
                 x2 = [K5.rand_x(rng, n2, d) for _ in range(B)]
                 mode = rng.choice(["distinct", "shared", "same"])
@@ -350,9 +350,9 @@ def natural(ctx, rng, q):
     reps = 10 if ctx.quick else 100
     work = []
     for rep in range(reps):
-        n = rng.randint(1, 5)
-        batch = rng.choice([None, 2])
+        batch = rng.choice([None, 2, 3])
         B = batch or 1
+        n = rng.choice([x for x in (1, 2, 3, 4, 5) if x != B or x == 1])
         for b_ in range(1):
             Sig = torch.stack([_rand_spd(rng, n) for _ in range(B)])
             mu = _t([[rng.gauss(0, 1) for _ in range(n)] for _ in range(B)])
@@ -473,9 +473,9 @@ def ciq(ctx, rng, q):
     reps = 10 if ctx.quick else 100
     work = []
     for rep in range(reps):
-        n, nb = rng.randint(1, 5), rng.randint(1, 4)
-        batch = rng.choice([None, 2])
+        batch = rng.choice([None, 2, 3])
         B = batch or 1
+        n, nb = rng.sample([x for x in (1, 2, 3, 4, 5, 6) if x != B], 2)       # B, n, nb pairwise different
         S = torch.stack([_rand_spd(rng, n, 0.8) for _ in range(B)])
         m = _t([[rng.gauss(0, 1) for _ in range(n)] for _ in range(B)])
         kk = _t([[[rng.gauss(0, 1) for _ in range(nb)] for _ in range(n)] for _ in range(B)])
@@ -531,7 +531,7 @@ def ciq(ctx, rng, q):
         var_ = (k_ * (S_ @ k_)).sum(-2)
         kl_ = 0.5 * (-torch.logdet(S_) + e2.diagonal(dim1=-1, dim2=-2).sum(-1) - n)
         if shared:
-            kl_ = kl_.expand(2)
+            kl_ = kl_.expand(B)
         r_k, r_1, r_2 = torch.autograd.grad([mean_, var_, kl_], [k_, e1, e2], grad_outputs=[gm, gv, gk])
         r_2 = 0.5 * (r_2 + r_2.transpose(-1, -2))
         sc = max(1.0, float(r_k.abs().max()), float(r_1.abs().max()), float(r_2.abs().max()))
